@@ -18,10 +18,13 @@ TECHNIQUE = "exhaustive enumeration of requests x configurations vs. a pure expe
 LEVEL_TEXT = ("All measurement lists of length <=3 (quick: <=2; 3 on default.qubit without broadcasting only) over {expval,var,probs(1),probs(2),sample,counts,state,"
               "density_matrix(1)} x shots in {None,7,(7,7),(3,7)} x broadcast in {None,1,3} x #tapes in {1,2} x 4 devices through qp.execute and QNode, "
               "and lists of length <=2 over {expval,var,probs(1),probs(2)} x interfaces {numpy,autograd,jax,jax-jit,torch} x diff methods x 1-2 trainable "
-              "arguments of shape ()/(2,) for results and Jacobians, are compared with the structure function.")
+              "arguments of shape ()/(2,) for results and Jacobians (plus broadcast sizes 1 and 3 over a trainable angle with backprop and over a non-trainable "
+              "angle with parameter-shift), are compared with the structure function.")
 LEVEL_NOTE = ("Only nesting and shapes are compared (not dtypes/values). Documented device deviation encoded: qp.state() on default.mixed is the density "
               "matrix. For counts with broadcasting any sequence of B dictionaries is accepted (spec: non-tensorlike results may handle broadcasting "
-              "differently). Jacobian structure is checked for the three autodiff entry points, not for raw gradient-transform output.")
+              "differently). Jacobian structure is checked for the three autodiff entry points (jax.jacobian eager and jitted, torch functional jacobian, qp.jacobian), "
+              "not for raw gradient-transform output; the forward result is compared before differentiating, an exception raised by the Jacobian call is a violation. "
+              "Quick runs jax-jit only on default.qubit (analytic, and the shot vector with parameter-shift, the only path that uses the jvp rule).")
 DESIGN_REF = "5.5 C32"
 START = "fork"
 PARALLEL = True
@@ -211,7 +214,12 @@ def check_iface(spec):
     B = spec.get("B")
     req = {"tapes": [ms], "shots": shots, "B": B}
     exp = expected_structure(req, dev_name)[1][0]
+    Bc = spec.get("Bconst")  # broadcast over a NON-trainable angle: the batch axis crosses the interface boundary with device derivatives
+    if Bc is not None:
+        req = {"tapes": [ms], "shots": shots, "B": Bc}
+        exp = expected_structure(req, dev_name)[1][0]
     a0 = 0.4 if B is None else [0.4 + 0.1 * i for i in range(B)]
+    const = 0.3 if Bc is None else np.linspace(0.2, 0.6, Bc)
     dev = qp.device(dev_name, wires=NW)
 
     def qfunc(a, b=None):
@@ -220,7 +228,7 @@ def check_iface(spec):
             qp.RY(b[0], wires=1)
             qp.RZ(b[1], wires=1)
         else:
-            qp.RY(0.3, wires=1)
+            qp.RY(const, wires=1)
         qp.CNOT([0, 1])
         out = [build_meas(m) for m in ms]
         return out[0] if len(out) == 1 else tuple(out)
@@ -228,6 +236,17 @@ def check_iface(spec):
     arg_shapes = [() if B is None else (B,)] + ([(2,)] if nargs == 2 else [])
     rejected = (qp.exceptions.DeviceError, qp.exceptions.QuantumFunctionError, NotImplementedError)
     depth = (1 if len(ms) > 1 else 0) + (1 if isinstance(shots, list) else 0)
+    feats = ("shotvector" if isinstance(shots, list) else ("shots" if shots else "analytic")) + ("" if B is None else f"+broadcast{B}") + ("" if Bc is None else f"+const-broadcast{Bc}")
+
+    def rejected_skip(e):
+        if isinstance(e, rejected):
+            return skip(f"{dev_name}/{iface}/{diff}: {type(e).__name__}")
+        if isinstance(e, ValueError) and ("adjoint" in str(e).lower() or "does not support" in str(e).lower()):
+            return skip(f"{dev_name}/{iface}/{diff}: ValueError(unsupported)")
+        return None
+
+    # 1. forward result: compared BEFORE any differentiation, so that a wrong result structure is reported as such
+    jac_fn = None
     try:
         circuit = qp.set_shots(qp.QNode(qfunc, dev, interface=("jax" if iface == "jax-jit" else iface), diff_method=diff), shots_arg(shots))
         if iface in ("jax", "jax-jit"):
@@ -237,40 +256,47 @@ def check_iface(spec):
             args = [jnp.array(a0)] + ([jnp.array([0.2, -0.5])] if nargs == 2 else [])
             f = jax.jit(circuit) if iface == "jax-jit" else circuit
             res = f(*args)
-            jf = jax.jacobian(circuit, argnums=list(range(nargs)) if nargs > 1 else 0)
-            jf = jax.jit(jf) if iface == "jax-jit" else jf
-            jac = jf(*args) if diff is not None else None
+            if diff is not None:
+                jf = jax.jacobian(circuit, argnums=list(range(nargs)) if nargs > 1 else 0)
+                jf = jax.jit(jf) if iface == "jax-jit" else jf
+                jac_fn = lambda: jf(*args)
         elif iface == "torch":
             import torch
 
             args = [torch.tensor(a0, requires_grad=True, dtype=torch.float64)] + ([torch.tensor([0.2, -0.5], requires_grad=True, dtype=torch.float64)] if nargs == 2 else [])
             res = circuit(*args)
-            # torch's functional jacobian accepts a Tensor or a flat tuple of Tensors only
-            jac = torch.autograd.functional.jacobian(circuit, tuple(args) if nargs > 1 else args[0]) if (diff is not None and depth <= 1) else None
+            if diff is not None and depth <= 1:  # torch's functional jacobian accepts a Tensor or a flat tuple of Tensors only
+                jac_fn = lambda: torch.autograd.functional.jacobian(circuit, tuple(args) if nargs > 1 else args[0])
         elif iface == "autograd":
             from pennylane import numpy as pnp
 
             args = [pnp.array(a0, requires_grad=True)] + ([pnp.array([0.2, -0.5], requires_grad=True)] if nargs == 2 else [])
             res = circuit(*args)
-            jac = None
             if diff is not None and depth == 0:  # qp.jacobian is documented for a single array-valued output
-                jac = qp.jacobian(circuit)(*args)
+                jac_fn = lambda: qp.jacobian(circuit)(*args)
         else:
             args = [np.array(a0)] + ([np.array([0.2, -0.5])] if nargs == 2 else [])
             res = circuit(*args)
-            jac = None
-    except rejected as e:
-        return skip(f"{dev_name}/{iface}/{diff}: {type(e).__name__}")
-    except ValueError as e:
-        if "adjoint" in str(e).lower() or "does not support" in str(e).lower():
-            return skip(f"{dev_name}/{iface}/{diff}: ValueError(unsupported)")
+    except Exception as e:  # noqa: BLE001 - documented rejections become skips, anything else propagates as a violation
+        sk = rejected_skip(e)
+        if sk is not None:
+            return sk
         raise
     obs = observe(res)
-    feats = ("shotvector" if isinstance(shots, list) else ("shots" if shots else "analytic")) + ("" if B is None else f"+broadcast{B}")
     if obs != exp:
         path, a, b = first_diff(obs, exp)
         return bad(f"iface-result:{iface}:{diff}:{dev_name}:{feats}", obs, exp, at=path, got=a, want=b)
-    if jac is not None:
+    # 2. Jacobian
+    if jac_fn is not None:
+        try:
+            jac = jac_fn()
+        except (ImportError, MemoryError, OSError):
+            raise  # harness-level problems must not be reported as a PennyLane violation
+        except Exception as e:  # noqa: BLE001
+            sk = rejected_skip(e)
+            if sk is not None:
+                return sk
+            return bad(f"jacobian-raised:{iface}:{diff}:{dev_name}:{feats}:{type(e).__name__}", f"{type(e).__name__}: {e}"[:300], "a Jacobian with the result's nesting")
         multi = nargs > 1
         jexp = jac_structure(exp, arg_shapes[:nargs], multi)
         jobs = observe(jac)
@@ -301,7 +327,7 @@ def run(ctx):
                         continue  # quick: length-3 lists without broadcasting only
                     specs.append({"dev": dev, "req": {"tapes": [ms], "shots": shots, "B": B}})
                 # batches of two tapes: every ordered pair of lists of length <= 1 (quick) / <= 2, second tape distinct structure
-                short = [l for l in lists if len(l) <= (1 if ctx.quick else 2)]
+                short = [l for l in lists if len(l) <= (1 if (ctx.quick or B is not None) else 2)]
                 for a in short:
                     for b in short:
                         specs.append({"dev": dev, "req": {"tapes": [a, b], "shots": shots, "B": B}})
@@ -327,8 +353,8 @@ def run(ctx):
             for nargs in (1, 2):
                 lists = ilists
                 if iface == "jax-jit":
-                    if shots is not None and ctx.quick:
-                        continue
+                    if ctx.quick and (shots == 7 or (shots is not None and diff != "parameter-shift")):
+                        continue  # quick keeps jit + shot VECTOR with parameter-shift: only jit uses the jvp rule (jacobian_products._compute_jvps)
                     lists = [["expval"], ["expval", "probs2"]] if ctx.quick else ilists
                     if ctx.quick and (dev != "default.qubit" or nargs == 2):
                         continue
@@ -345,6 +371,11 @@ def run(ctx):
                 for ms in (["expval"], ["expval", "probs2"]):
                     for Bv in (1, 3):
                         ispecs.append({"dev": dev, "iface": iface, "diff": diff, "shots": None, "meas": ms, "nargs": 1, "B": Bv})
+    for dev in ("default.qubit", "default.mixed", "lightning.qubit"):
+        for iface in ("torch", "jax", "autograd"):
+            for ms in (["expval"], ["expval", "probs2"]):
+                for Bv in (1, 3):
+                    ispecs.append({"dev": dev, "iface": iface, "diff": "parameter-shift", "shots": None, "meas": ms, "nargs": 1, "Bconst": Bv})
     ctx.enumerate(ispecs, fn="check_iface", axis="interface-level", chunk=6, start="spawn")
     ctx.coverage["alphabet"] = {"measurements": ALPHA, "shots": SHOTS, "broadcast": [None, 1, 3], "tapes": [1, 2], "devices": DEVICES,
                                 "interfaces": ["numpy", "autograd", "jax", "jax-jit", "torch"],
